@@ -8,16 +8,19 @@ pub mod c29;
 pub mod c30;
 pub mod c35;
 pub mod dirchecks;
+pub mod replchecks;
 
 pub fn dispatch(id: &str, args: &[String]) -> ! {
     match id {
         "C02" => c02::run(args),
         "C03" => dirchecks::run("C03", args),
+        "C08" => replchecks::run("C08", args),
+        "C09" => replchecks::run("C09", args),
         "C10" => c10::run(args),
         "C11" => c11::run(args),
         "C12" => c12::run(args),
         "C17" => dirchecks::run("C17", args),
-        "C19" => dirchecks::run("C19", args),
+        "C19" => replchecks::run("C19", args),
         "C21" => c21::run(args),
         "C22" => dirchecks::run("C22", args),
         "C26" => dirchecks::run("C26", args),
